@@ -1,7 +1,7 @@
 (* C10 -- A script parses to the concatenation of its statements.  Statements only.
    Model: Parse/Model.v statements_loop (SQLParser.parse_statements: loop { statement ; optional ';' } then close). *)
 From Coq Require Import List NArith ZArith Bool String Ascii Lia.
-Require Import Base.Common Gen.LexTable Lex.Model Cur.Model Tree.Value Gen.Static Parse.Prim Parse.Model Parse.LoopProofs Parse.ScriptFacts Parse.Extend Lex.Compose Tree.Canon Parse.Entry Parse.TextScript.
+Require Import Base.Common Gen.LexTable Lex.Model Cur.Model Tree.Value Gen.Static Parse.Prim Parse.Model Parse.LoopProofs Parse.ScriptFacts Parse.Extend Lex.Compose Tree.Canon Parse.Entry Parse.TextScript Parse.Prepass.
 Import ListNotations.
 Open Scope string_scope.
 Open Scope list_scope.
@@ -97,6 +97,19 @@ Example C10_texts_exist :
 "; ti_of D_MYSQL "USE db1"] /\ (forall s, dialect_prepass D_MYSQL s = s).
 Proof. split; [|reflexivity]. repeat (apply Forall_cons; [vm_compute; repeat split; reflexivity|]). apply Forall_nil. Qed.
 
+(* 9. ... and for EVERY dialect: the Hive '==' and DB2 CURRENT DATE / TIME / TIMESTAMP shims are str.replace calls whose patterns contain no
+   ';', so they commute with the split of the text at a separator (Parse/Prepass.v).  The statements are judged after their own pre-pass. *)
+Theorem C10_text_script_any_dialect :
+  forall d items final, Forall (fun it => text_ok d (pre_item d it)) items ->
+    parse_text false "statements" d (script_text (map ti_text items) final) = Ok (canon (VList (map ti_val items))).
+Proof. intros d items final H. exact (text_script_any_dialect d items final H). Qed.
+
+Definition ti_pre (d : sqltype) (s : string) : titem :=
+  let ts := match lex false 7 (dialect_prepass d (S s)) with Ok t => t | Err _ => [] end in mkti (S s) ts (val_of (fuel_for ts) d ts).
+Example C10_hive_texts_exist :
+  Forall (fun it => text_ok D_HIVE (pre_item D_HIVE it)) [ti_pre D_HIVE "SELECT a FROM t WHERE a == 1 AND ! b"; ti_pre D_HIVE "DROP TABLE IF EXISTS s.t"].
+Proof. repeat (apply Forall_cons; [vm_compute; repeat split; reflexivity|]). apply Forall_nil. Qed.
+
 Print Assumptions C10_script_is_concatenation.
 Print Assumptions C10_standalone.
 Print Assumptions C10_items_exist.
@@ -108,3 +121,5 @@ Print Assumptions C10_standalone_items_exist.
 Print Assumptions C10_lexer_semicolon.
 Print Assumptions C10_text_script.
 Print Assumptions C10_texts_exist.
+Print Assumptions C10_text_script_any_dialect.
+Print Assumptions C10_hive_texts_exist.
